@@ -6,7 +6,7 @@ Every property module ``props/Cxx.py`` exposes ``run(ctx)`` and optionally
 ``evidence/<id>.json``.
 """
 
-import fnmatch
+import re
 import hashlib
 import json
 import os
@@ -56,6 +56,13 @@ def load_findings():
         return {"known": [], "fixed": []}
     with open(FINDINGS_FILE) as f:
         return json.load(f)
+
+
+def sig_match(signature, pattern):
+    """known-finding patterns: '*' is the only wildcard, every other character is literal
+    (fnmatch would read '[...]' in a signature as a character class)"""
+    rx = ".*".join(re.escape(part) for part in pattern.split("*"))
+    return re.fullmatch(rx, signature, flags=re.S) is not None
 
 
 class Ctx:
@@ -110,7 +117,7 @@ class Ctx:
         failed.  replay: payload sufficient to re-execute exactly this one case.
         """
         for f in self._findings:
-            if fnmatch.fnmatchcase(signature, f["signature"]):
+            if sig_match(signature, f["signature"]):
                 ent = self.known_hits.setdefault(
                     f["signature"], [0, f["what"], _jsonable(detail)]
                 )
